@@ -6,6 +6,7 @@ import (
 	"sort"
 
 	"astverif/itersafe"
+	"astverif/layout"
 	"astverif/load"
 	"astverif/pathint"
 )
@@ -21,6 +22,10 @@ func DebugSummary(names []string) {
 	ck.IP.SuffixLo = map[string]int64{".optPacketSize": 0}
 	ck.IP.NonZeroLo = map[string]int64{".optPacketSize": 188, "$packetSize": 188}
 	ck.IP.FieldInvs = []pathint.FieldInv{{Type: "packetBuffer", Field: "packetSize", Lo: 188}}
+	if len(names) > 0 && names[0] == "-A" {
+		names = names[1:]
+		ck.IP = layout.New(p).IP
+	}
 	for _, n := range names {
 		f := p.Func(n)
 		if f == nil {
@@ -44,6 +49,9 @@ func DebugSummary(names []string) {
 			}
 			for _, ft := range o.Facts {
 				fmt.Printf("   fact %s\n", ft)
+			}
+			for _, ne := range o.NE {
+				fmt.Printf("   ne %s != 0\n", ne)
 			}
 		}
 		for _, rq := range s.Reqs {
